@@ -246,7 +246,7 @@ def run_apply(run, drv):
         fn = functools.partial(leaf_fn, none_vals=tuple(none_vals), log=log)
         with patched_pool(order=list(o)) as pp:
             try:
-                with time_limit(30):
+                with time_limit(120):
                     res = td._fast_apply(fn, num_threads=2, filter_empty=fe)
                 impl_err = None
             except TimeoutError as e:
@@ -290,7 +290,7 @@ def run_apply(run, drv):
         run.case(("apply-real", tree_sx(t), none_vals, fe, nt, variant))
         run.count("apply.real_variant", variant)
         try:
-            with time_limit(60):
+            with time_limit(180):
                 if variant in ("named", "nested_keys"):
                     l1, l2 = [], []
                     kw = dict(named=True, nested_keys=variant == "nested_keys", filter_empty=fe)
@@ -405,7 +405,7 @@ def run_writers(run, drv):
                     run.count("writers.api", api)
                     d = root / f"w{ci}_{oi}"
                     try:
-                        with patched_pool(order=list(o)) as pp, time_limit(60):
+                        with patched_pool(order=list(o)) as pp, time_limit(180):
                             if api == "consolidate":
                                 got = td.consolidate(num_threads=3)
                                 obs = (bytes(got._consolidated["storage"].tolist()), bits(got))
@@ -448,7 +448,7 @@ def run_writers(run, drv):
                 for nt in (2, 4, 8):
                     d = root / f"r{ci}_{nt}"
                     try:
-                        with time_limit(60):
+                        with time_limit(180):
                             if api == "consolidate":
                                 got = td.consolidate(num_threads=nt)
                                 obs = (bytes(got._consolidated["storage"].tolist()), bits(got))
